@@ -104,7 +104,19 @@ func slList(es []types.Entry) string {
 
 // slRun replays ops on a fresh skiplist (tower heights scripted through the rand shim) and
 // compares every query with the model after the last operation.
-func slRun(maxLevel int, p float64, ops []slOp, probes []string) (*slModel, error) {
+func slRun(maxLevel int, p float64, ops []slOp, probes []string) (m *slModel, err error) {
+	err = guard("c17", func() error {
+		var e error
+		m, e = slRunRaw(maxLevel, p, ops, probes)
+		return e
+	})
+	if oe, ok := err.(*OracleErr); ok && strings.Contains(oe.Sig, "/panic/") {
+		oe.Detail = fmt.Sprintf("maxLevel=%d, after %v: %s", maxLevel, ops, oe.Detail)
+	}
+	return m, err
+}
+
+func slRunRaw(maxLevel int, p float64, ops []slOp, probes []string) (*slModel, error) {
 	grows := 0
 	vrand.Script = func() float64 {
 		if grows > 0 {
@@ -129,6 +141,9 @@ func slRun(maxLevel int, p float64, ops []slOp, probes []string) (*slModel, erro
 			if got := sl.Delete(o.K); got != present {
 				return m, oerr("c17/delete-result", "after %v: Delete(%s) returned %v, want %v", ops, o.K, got, present)
 			}
+		}
+		if o.H > maxLevel {
+			o.H = maxLevel // H = maxLevel+1: the random source would go on growing the tower at the cap
 		}
 		m.apply(o)
 	}
@@ -205,7 +220,7 @@ func c17Units(tier string) []Unit {
 			probes = append(probes, " @1", cf.keys[0]+"@0", cf.keys[0]+"@5", cf.keys[0]+"@100", cf.keys[len(cf.keys)-1]+"z@1", "zz@3")
 			// one unit per first operation (the BFS below it is independent)
 			for fi, fk := range vkeys {
-				for fh := 1; fh <= ml; fh++ {
+				for fh := 1; fh <= ml+1; fh++ {
 					for _, tomb := range []bool{false, true} {
 						fi, fk, fh, tomb := fi, fk, fh, tomb
 						units = append(units, Unit{Name: fmt.Sprintf("keys=%d/maxLevel=%d/depth=%d/first=%s,h%d,tomb=%v", len(vkeys), ml, cf.depth, fk, fh, tomb), Weight: cf.depth, Run: func(c *Ctx) {
@@ -220,16 +235,16 @@ func c17Units(tier string) []Unit {
 	}
 	// exhaustive (no deduplication) over three user keys with one version each
 	exDepth := 6
-	exLevels := []int{2, 3}
+	exLevels := []int{1, 2, 3}
 	if tier == "thorough" {
 		exDepth = 8
-		exLevels = []int{2, 3, 4}
+		exLevels = []int{1, 2, 3, 4}
 	}
 	exKeys := []string{"a@1", "b@1", "c@1"}
 	exProbes := append(append([]string{}, exKeys...), " @1", "a@9", "bb@1", "zz@3")
 	for _, ml := range exLevels {
 		for _, fk := range exKeys {
-			for fh := 1; fh <= ml; fh++ {
+			for fh := 1; fh <= max(ml, 2); fh++ {
 				ml, fk, fh := ml, fk, fh
 				units = append(units, Unit{Name: fmt.Sprintf("exhaustive/keys=3/maxLevel=%d/depth=%d/first=%s,h%d", ml, exDepth, fk, fh), Weight: exDepth + 2, Run: func(c *Ctx) {
 					c17Exhaustive(c, ml, exDepth, exKeys, exProbes, slOp{Kind: "S", K: fk, V: "p", H: fh})
@@ -284,7 +299,7 @@ func c17Exhaustive(c *Ctx, maxLevel, depth int, vkeys, probes []string, first sl
 			if present {
 				ops = []slOp{{Kind: "S", K: k, V: "qq", Tomb: true, H: 1}, {Kind: "S", K: k, V: m.ents[i].V, Tomb: !m.ents[i].Tomb, H: 1}, {Kind: "D", K: k}}
 			} else {
-				for h := 1; h <= maxLevel; h++ {
+				for h := 1; h <= max(maxLevel, 2); h++ {
 					ops = append(ops, slOp{Kind: "S", K: k, V: "p", H: h})
 				}
 			}
@@ -352,7 +367,7 @@ func c17Search(c *Ctx, maxLevel, depth int, vkeys, probes []string, first slOp) 
 					ops = append(ops, slOp{Kind: "S", K: k, V: "qq", Tomb: true, H: 1}, slOp{Kind: "S", K: k, V: "", H: 1},
 						slOp{Kind: "S", K: k, V: cur.ents[i].V, Tomb: !cur.ents[i].Tomb, H: 1}, slOp{Kind: "D", K: k})
 				} else {
-					for h := 1; h <= maxLevel; h++ {
+					for h := 1; h <= maxLevel+1; h++ {
 						ops = append(ops, slOp{Kind: "S", K: k, V: "p", H: h}, slOp{Kind: "S", K: k, V: "qq", Tomb: true, H: h})
 					}
 					ops = append(ops, slOp{Kind: "D", K: k})
@@ -406,7 +421,7 @@ func init() {
 	Props["C17"] = &PropMeta{
 		Units: c17Units,
 		Rule: "(plus every Set/Delete sequence up to depth 6 (thorough 8) over three keys WITHOUT state deduplication, every tower height) breadth-first explicit-state search over Set/Delete sequences on the real skiplist (versioned keys over 'a','a!','b','a@1' x versions {1,2,10}; values incl. empty, tombstone flag), " +
-			"every tower height 1..maxLevel for every insertion (scripted through the math/rand shim), maxLevel in {1,2,3,4}, states deduplicated on (content, heights); after every transition " +
+			"every tower height 1..maxLevel for every insertion and a random source that would grow the tower beyond the cap (scripted through the math/rand shim: H-1 draws below p), maxLevel in {1,2,3,4}, states deduplicated on (content, heights); after every transition " +
 			"Get, LowerBound, Scan (every start/end probe pair incl. absent keys before/between/after) and All are compared with a sorted-slice model; a state is non-trivial with >= 2 elements and a tower above 1",
 		Assumptions: []string{
 			"single-threaded use (the memtable serialises access with its own lock)",
